@@ -106,6 +106,8 @@ func main() {
 		Extra: func(cfg *hx.Cfg, do func(id string, c fsmx.Case)) {
 			sweep(cfg, do)
 			fsmx.ExitProduct(do, "SFE", true)
+			// second and third connections of one FSM, through the speaker's real receiver goroutine
+			fsmx.ReconnectProduct(do)
 			// well-formed UPDATEs carrying optional attributes a conforming peer may send, on 2- and 4-octet AS sessions
 			for _, sess := range []string{"s65001/65002/10/90/46/0000/0/00/0.0/A/i", "s65001/65001/10/90/4/0000/0/00/0.0/R/i"} {
 				pas := "65002"
